@@ -8,6 +8,11 @@ package connection
 // under its own address, and every record of this manager that is alive - its dial
 // has not failed and its last reference has not been released - is the entry filed
 // under its address.
+// The ready channel of a record is closed exactly once, by its dial, after the outcome
+// was stored: closing it publishes "exactly one of error / connection is set" (both
+// fields are written only before that, so the fact is stable).
+//@ flagchan connection.ready signals Outcome
+//@ pred Outcome(c *connection) := (c.err != nil) != (c.c != nil)
 // filedIn[x]: the manager whose table holds record x (ghost: set when the record is
 // filed and its dial started, cleared when the last release removes it).
 //@ ghost filedIn gmap[ref]ref
@@ -101,7 +106,7 @@ package connection
 //@   assert at call (*connection).done#0: [release-only-for-a-live-connection C16] c.err == nil && arg0 == c && arg1 == m
 //@   ensures [no-reference-leaked C16] res2 != nil && refsTaken != old(refsTaken) ==> c.err != nil && res2 == c.err
 //@   ensures [error-has-no-connection C16] res2 != nil ==> res0 == nil
-//@   ensures [success-hands-out-the-shared-connection C16] res2 == nil ==> res0 == c.c && refsTaken == old(refsTaken) + 1
+//@   ensures [success-hands-out-the-shared-connection C16] res2 == nil ==> res0 == c.c && res0 != nil && refsTaken == old(refsTaken) + 1
 
 //@ func NewManagerCustom
 //@   props C16 C12
